@@ -3,6 +3,7 @@ package c16
 import (
 	"encoding/base64"
 	"fmt"
+	"os"
 	"strconv"
 	"strings"
 	"testing"
@@ -10,6 +11,16 @@ import (
 	"github.com/evanw/esbuild/verif/vdrv"
 	"pgregory.net/rapid"
 )
+
+// scaled lets a test run of the thorough tier use a fraction of the case counts (VERIF_C16_THOROUGH_PCT).
+func scaled(n int) int {
+	if v := os.Getenv("VERIF_C16_THOROUGH_PCT"); v != "" {
+		if p, err := strconv.Atoi(v); err == nil && p > 0 {
+			return n * p / 100
+		}
+	}
+	return n
+}
 
 func b64(b []byte) string { return base64.StdEncoding.EncodeToString(b) }
 
@@ -295,7 +306,7 @@ func tKey(c TCase) string { return fmt.Sprintf("%d|%x", c.Opt, c.Data) }
 
 func runTransform(t *testing.T) {
 	H.Rule("transform", "rapid: a snippet harvested from the repository's own parser/printer/bundler tests (loader-matched, 10% cross-loader) put through 1–3 drawn mutations (truncate, nest ×N up to 5000 brackets, splice with another snippet, bit flips, hostile token / invalid UTF-8 / NUL injection, truncated multi-byte sequence at EOF, 100…20000-digit numbers, huge escapes and identifiers, slice repetition, concatenation up to 64 KB, raw bytes) × loader {js,jsx,ts,tsx,css,local-css,global-css,json} × drawn flag word (minify*, target es5…esnext, format, sourcemap inline/external/both ± sourcesContent, charset, jsx mode, mangle-props, tsconfigRaw incl. malformed, keep-names, drop, define, supported overrides …). Oracle: api.Transform returns (10 s watchdog; a suspected hang is re-run 3× in fresh processes under a 20 s CPU bound, minimised, and charged unless its minimal form is beyond the nesting bound); no escaping panic; no message/note starting with `panic:` or containing `Internal error`; after a failure a canary input still transforms to the start-up bytes. Non-trivial = at least one mutation was applied and the input is non-empty.")
-	H.SetupRapid("transform", H.N(60000, 1500000))
+	H.SetupRapid("transform", H.N(100000, scaled(750000)))
 	rapid.Check(t, func(rt *rapid.T) {
 		c := genTCase(rt)
 		H.Report(rt, "transform", tKey(c), c, judge("transform", c, tClasses(c), len(c.Muts) > 0 && len(c.Data) > 0))
@@ -497,7 +508,7 @@ func genSCase(t *rapid.T) SCase {
 
 func runSrcmap(t *testing.T) {
 	H.Rule("srcmap", "rapid: 1–4 corpus snippets (js/ts/css) followed by a `sourceMappingURL=data:application/json` comment whose payload (base64, percent-encoded or raw) is a generated source-map document with drawn defects: wrong JSON types for version/sources/sourcesContent/names/mappings/sourceRoot/ignoreList/sections, arity mismatches, null entries, hostile source names, mappings with huge VLQs, 2^31/2^32/2^63 overflows, negative indices and columns, truncated or invalid segments, truncated/prefixed/byte-mutated documents; the file is transformed, or bundled from stdin, with source maps on (inline or external, ± sourcesContent, ± minify, any target/format). Same oracle as `transform`. Non-trivial = the payload is non-empty.")
-	H.SetupRapid("srcmap", H.N(12000, 300000))
+	H.SetupRapid("srcmap", H.N(20000, scaled(150000)))
 	rapid.Check(t, func(rt *rapid.T) {
 		c := genSCase(rt)
 		cls := []string{"loader=" + c.Loader, "enc=" + c.Enc}
@@ -724,7 +735,7 @@ func bKey(c BCase) string {
 
 func runConfig(t *testing.T) {
 	H.Rule("config", "rapid: a fixed project (entry importing a dependency by main/subpath/pattern/#imports/tsconfig-paths/alias specifiers, CSS with package imports) written to a temp dir with generated package.json (root and dependency) and tsconfig.json (+ an extended base): fields exports/imports/browser/main/module/sideEffects/type/… and compilerOptions paths/baseUrl/jsx/target/… filled with drawn values of the wrong JSON type, nested condition objects, odd subpath patterns, escaping targets; `extends` as string/array/junk pointing at itself, at each other (cycles), at missing files and packages; documents truncated, empty, BOM/commented, byte-mutated, or taken from the repository's bundler tests and mutated; bundled with api.Build (platform × format × minify × sourcemap × splitting × packages=external × tsconfig override × aliases). Same oracle as `transform`. Non-trivial = at least one of the four config documents is not valid strict JSON or has a field of an unexpected type (always true by construction unless taken unmodified from the corpus).")
-	H.SetupRapid("config", H.N(10000, 250000))
+	H.SetupRapid("config", H.N(16000, scaled(100000)))
 	rapid.Check(t, func(rt *rapid.T) {
 		c := genBCase(rt)
 		cls := []string{"platform#" + strconv.Itoa(bits(c.Opt, bLoader, 3)%4)}
